@@ -252,6 +252,7 @@ def keyMatch5 (k1 k2 : Str) : Option Bool :=
 (unanchored patterns are outside the fragment) -/
 def regexMatchAnchored (k pat : Str) : Option Bool :=
   match pat with
+  | [] => some true        -- the empty regex matches every key (empty-policy evaluation)
   | '^' :: rest =>
     if rest.getLast? = some '$' then reMatch k rest.dropLast else none
   | _ => none
